@@ -270,6 +270,20 @@ def kind_of(x):
     return type(x).__name__
 
 
+def short(x, n=160):
+    """repr for reports that never talks to a peer (a netref's repr is a remote call)"""
+    if is_netref(x):
+        return "<netref>"
+    try:
+        if type(x) in (tuple, list):
+            return "(%s)" % ", ".join(short(y, 40) for y in x[:8]) + ("..." if len(x) > 8 else "")
+        if is_value(x):
+            return short(x, n)
+        return "<%s object>" % type(x).__name__
+    except Exception:
+        return "<%s object>" % type(x).__name__
+
+
 # ------------------------------------------------------------------ one pair of connections under observation
 class Pair(object):
     def __init__(self, ctx, classic_services=False):
@@ -429,16 +443,16 @@ def check_arrival(ctx, pr, sender, sent, got, case, path="x"):
     rcv = not sender
     if is_value(sent):
         if is_netref(got):
-            ctx.violation("value-arrives-as-reference:" + kind_of(sent), case, observed="netref", expected=C04.short(sent),
+            ctx.violation("value-arrives-as-reference:" + kind_of(sent), case, observed="netref", expected=short(sent),
                           what="an immutable plain value reached the peer as a reference")
         elif type(got) is not type(sent) or C04.canon(got) != C04.canon(sent):
-            ctx.violation("value-arrives-changed:" + kind_of(sent), case, observed="%s %s" % (type(got).__name__, C04.short(got)),
-                          expected="%s %s" % (type(sent).__name__, C04.short(sent)),
+            ctx.violation("value-arrives-changed:" + kind_of(sent), case, observed="%s %s" % (type(got).__name__, short(got)),
+                          expected="%s %s" % (type(sent).__name__, short(sent)),
                           what="an immutable plain value reached the peer with another type or content (at %s)" % path)
         return
     if type(sent) is tuple:
         if type(got) is not tuple or len(got) != len(sent):
-            ctx.violation("tuple-not-elementwise:" + kind_of(got), case, observed=C04.short(got), expected="tuple of %d" % len(sent),
+            ctx.violation("tuple-not-elementwise:" + kind_of(got), case, observed=short(got), expected="tuple of %d" % len(sent),
                           what="an exact tuple holding references did not arrive as a tuple of the same length")
             return
         for i, (a, b) in enumerate(zip(sent, got)):
@@ -451,14 +465,14 @@ def check_arrival(ctx, pr, sender, sent, got, case, path="x"):
             ctx.violation("echo-not-original:proxy-instead-of-object", case, observed="netref", expected="the original object",
                           what="a reference handed back to its owner arrived as a proxy, not as the original object")
         elif e is not None and got is not e.obj:
-            ctx.violation("echo-not-original:another-object", case, observed=C04.short(got), expected="the original %s" % e.kind,
+            ctx.violation("echo-not-original:another-object", case, observed=short(got), expected="the original %s" % e.kind,
                           what="a reference handed back to its owner is not the original object")
         return
     # every other object: must be a reference to `sent`
     e = pr.by_id[sender].get(id(sent))
     kind = e.kind if e is not None else kind_of(sent)
     if not is_netref(got):
-        ctx.violation("object-arrives-by-value:" + kind, case, observed="%s %s" % (type(got).__name__, C04.short(got)),
+        ctx.violation("object-arrives-by-value:" + kind, case, observed="%s %s" % (type(got).__name__, short(got)),
                       expected="a reference", what="an object that is not an immutable plain value reached the peer as a copy (at %s)" % path)
         return
     k = object.__getattribute__(got, "____id_pack__")
@@ -467,7 +481,7 @@ def check_arrival(ctx, pr, sender, sent, got, case, path="x"):
     except KeyError:
         owner_obj = None
     if owner_obj is not sent:
-        ctx.violation("reference-to-wrong-object", case, observed=C04.short(owner_obj), expected="the sent " + kind,
+        ctx.violation("reference-to-wrong-object", case, observed=short(owner_obj), expected="the sent " + kind,
                       what="the proxy that arrived does not refer to the object that was sent")
     # one proxy per remote object while it is alive
     for n, p in pr.held[rcv].items():
@@ -533,6 +547,17 @@ class Hist(object):
 
     def viol(self, *a, **k):
         self.flag.violation(*a, **k)
+
+    def crashed(self, e):
+        """the implementation left the harness in a state it cannot observe: fail closed, with the history as the input"""
+        import traceback
+        where = [f for f in traceback.extract_tb(e.__traceback__) if f.filename.endswith("C03.py")]
+        self.ctx.violation("history-cannot-be-observed:%s" % type(e).__name__, self.case(), observed=("%s: %s" % (type(e).__name__, str(e)[:300])),
+                           expected="every step observable", what="a step of the history raised outside the property's own operations (%s)"
+                           % (", ".join("%s:%d" % (f.name, f.lineno) for f in where[-3:])))
+        self.desync = True
+        n = min(len(self.ops), len(self.obs))
+        del self.ops[n:], self.obs[n:], self.mops[n:]
 
     def case(self):
         return {"kind": "hist", "ops": list(self.ops)}
@@ -797,44 +822,50 @@ def gen_history(ctx, r, nsteps, stats):
     h = Hist(ctx, r)
     pr = h.pr
     nraw = r.choice([0, 0, 0, 1, 2])
-    for step in range(nsteps):
-        if h.desync:
-            break
-        side = r.random() < 0.5
-        k = r.random()
-        held = list(pr.held[side])
-        if k < 0.62 or not held:
-            h.send(side, r.choice(["arg", "arg", "ret"]), gen_spec(r, h, side, r.choice([0, 1, 2, 3]), stats))
-        elif k < 0.80:
-            h.drop(side, r.choice(held))
-        else:
-            mutable = [n for n in held if pr.target[side].get(n) is not None and pr.target[side][n].mut is not None]
-            if mutable:
-                h.mutate(side, r.choice(mutable), r.randrange(3, 10**6))
+    try:
+        for step in range(nsteps):
+            if h.desync:
+                break
+            side = r.random() < 0.5
+            k = r.random()
+            held = list(pr.held[side])
+            if k < 0.62 or not held:
+                h.send(side, r.choice(["arg", "arg", "ret"]), gen_spec(r, h, side, r.choice([0, 1, 2, 3]), stats))
+            elif k < 0.80:
+                h.drop(side, r.choice(held))
             else:
-                h.send(side, "arg", {"h": r.choice(held)})
-    for _ in range(nraw):
-        if h.desync:
-            break
-        side = r.random() < 0.5
-        h.raw(side, gen_raw(r, h, side))
+                mutable = [n for n in held if pr.target[side].get(n) is not None and pr.target[side][n].mut is not None]
+                if mutable:
+                    h.mutate(side, r.choice(mutable), r.randrange(3, 10**6))
+                else:
+                    h.send(side, "arg", {"h": r.choice(held)})
+        for _ in range(nraw):
+            if h.desync:
+                break
+            side = r.random() < 0.5
+            h.raw(side, gen_raw(r, h, side))
+    except Exception as e:
+        h.crashed(e)
     return h
 
 
 def replay_ops(ctx, ops):
     h = Hist(ctx, ctx.rng)
-    for op in ops:
-        if h.desync:
-            break
-        if op[0] == "send":
-            h.send(op[1], op[2], op[3])
-        elif op[0] == "drop":
-            h.drop(op[1], op[2])
-        elif op[0] == "mut":
-            if op[2] in h.pr.held[op[1]] and h.pr.target[op[1]].get(op[2]) is not None and h.pr.target[op[1]][op[2]].mut:
-                h.mutate(op[1], op[2], op[3])
-        elif op[0] == "raw":
-            h.raw(op[1], op[2])
+    try:
+        for op in ops:
+            if h.desync:
+                break
+            if op[0] == "send":
+                h.send(op[1], op[2], op[3])
+            elif op[0] == "drop":
+                h.drop(op[1], op[2])
+            elif op[0] == "mut":
+                if op[2] in h.pr.held[op[1]] and h.pr.target[op[1]].get(op[2]) is not None and h.pr.target[op[1]][op[2]].mut:
+                    h.mutate(op[1], op[2], op[3])
+            elif op[0] == "raw":
+                h.raw(op[1], op[2])
+    except Exception as e:
+        h.crashed(e)
     return h
 
 
@@ -938,12 +969,12 @@ def check_copy(ctx, which, idx):
             pr.conn[True].sync_request(H_KEEP, obj)
             proxy = pr.sink[False].pop()
             if not is_netref(proxy):      # enum members / int subclasses must be references too
-                ctx.violation("object-arrives-by-value:" + kind, case, observed=C04.short(proxy), expected="a reference",
+                ctx.violation("object-arrives-by-value:" + kind, case, observed=short(proxy), expected="a reference",
                               what="an object that is not an immutable plain value reached the peer as a copy")
                 return
             cp = classic.obtain(proxy)
             if is_netref(cp) or type(cp) is not type(obj) or not (cp == obj):
-                ctx.violation("obtain-not-equal:" + kind, case, observed="%s %s" % (type(cp).__name__, C04.short(cp)), expected=C04.short(obj),
+                ctx.violation("obtain-not-equal:" + kind, case, observed="%s %s" % (type(cp).__name__, short(cp)), expected=short(obj),
                               what="obtain() did not produce an equal object of the same type")
                 return
             if mut is not None:
@@ -963,12 +994,12 @@ def check_copy(ctx, which, idx):
         else:
             p = classic.deliver(pr.conn[True], obj)
             if not is_netref(p):
-                ctx.violation("deliver-not-a-reference:" + kind, case, observed=C04.short(p), expected="a proxy of the remote copy",
+                ctx.violation("deliver-not-a-reference:" + kind, case, observed=short(p), expected="a proxy of the remote copy",
                               what="deliver() did not return a reference to the copy made at the other party")
                 return
             remote = pr.conn[False]._local_objects[object.__getattribute__(p, "____id_pack__")]
             if type(remote) is not type(obj) or not (remote == obj):
-                ctx.violation("deliver-not-equal:" + kind, case, observed="%s %s" % (type(remote).__name__, C04.short(remote)), expected=C04.short(obj),
+                ctx.violation("deliver-not-equal:" + kind, case, observed="%s %s" % (type(remote).__name__, short(remote)), expected=short(obj),
                               what="deliver() did not create an equal object of the same type at the other party")
                 return
             if mut is not None:
